@@ -271,7 +271,7 @@ Section Parse.
     destruct (run_construct_eff vr ev w pattern_ok selectors_ok Hpad ids Hclosed f' k allow interop d None _ Hkm Hp Hidk Er)
       as [c' [Efc' [Hcok Heff]]].
     unfold effective in Heff.
-    destruct Heff as [cE [rcE [PE [dE [Hrc [Hnd [Hslots [Hcg [HpE [Hagree [EcidE [EdflE HslotE]]]]]]]]]]]].
+    destruct Heff as [cE [rcE [PE [dE [Hrc [Hnd [Hslots [Hcg [HpE [Hagree [EcidE [EdflE [HslotE _]]]]]]]]]]]]].
     rewrite Efc in Efc'. inv Efc'.
     pose proof (run_construct_idem vr ev w pattern_ok selectors_ok Hpad ids Hclosed (S f') k allow interop d None _ Hkm Hp Hidk Er)
       as [_ [Hresw [Hre Hplw]]].
